@@ -22,18 +22,28 @@ namespace PnVerif.NumRecs
 
 def maxOver (b : Nat) (l : List Nat) : Nat := l.foldl max b
 
-/-- a pending lead put request: id, whether its variable is a record variable, lead_req->max_rec -/
+/-- a pending lead put request: id, whether its variable is a record variable, lead_req->max_rec, and the two
+    keys ncmpio_igetput_varm uses to keep put_lead_list sorted (SORT_LEAD_LIST_BASED_ON_VAR_BEGIN):
+    `varBegin` = varp->begin, `reqOff` = varp->begin (+ recsize*start[0] for a record variable) -/
 structure Pend where
   id : Nat
   isRec : Bool
   maxRec : Nat
+  varBegin : Nat := 0
+  reqOff : Nat := 0
   deriving DecidableEq, Repr
+
+/-- ncmpio_igetput_varm: `for (i=numLeadPutReqs-1; i>=0; i--) { if (put_lead_list[i].varp->begin <= req_off) break; shift }`
+    — the new lead request goes behind the last entry whose VARIABLE begins at or before the new request's offset -/
+def insertPend (l : List Pend) (p : Pend) : List Pend :=
+  let tail := (l.reverse.takeWhile fun x => !decide (x.varBegin ≤ p.reqOff)).reverse
+  l.take (l.length - tail.length) ++ [p] ++ tail
 
 structure Rank where
   id : Nat
   numrecs : Nat
   dirty : Bool := false            -- NC_NDIRTY
-  pending : List Pend := []        -- put_lead_list, in posting order
+  pending : List Pend := []        -- put_lead_list (kept sorted by insertPend, NOT in posting order)
   own : Nat := 0                   -- ghost
   deriving DecidableEq, Repr
 
@@ -69,7 +79,8 @@ inductive Op where
   | putAll (f : Nat → PutIn)                       -- ncmpi_put_var{,1,a,s,m}*_all on a record variable
   | vardAll (f : Nat → VardIn)                     -- ncmpi_put_vard_all on a record variable
   | putIndep (r : Nat) (recEnd : Nat)              -- rank r: independent put (valid, non-empty)
-  | iput (r : Nat) (id : Nat) (isRec : Bool) (recEnd : Nat)   -- rank r posts ncmpi_iput_*/bput_* (id is fresh)
+  | iput (r : Nat) (id : Nat) (isRec : Bool) (recEnd : Nat) (varBegin reqOff : Nat)
+                                                   -- rank r posts ncmpi_iput_*/bput_* (id is fresh)
   | waitAll (sel : Nat → Sel)                      -- ncmpi_wait_all
   | wait (r : Nat) (sel : Sel)                     -- rank r: ncmpi_wait
   | fillRec (recno : Nat → Nat)                    -- ncmpi_fill_var_rec (valid variable on every rank)
@@ -211,9 +222,12 @@ def step (fx : Bool) (w : World) : Op → Option World
                       (if r.numrecs < e then { r with numrecs := e, dirty := true, own := max r.own e }
                        else { r with own := max r.own e })
                     else r }
-  | .iput rk id isRec e =>
+  | .iput rk id isRec e vb ro =>
       some { w with ranks := w.ranks.map fun r =>
-               if r.id == rk then { r with pending := r.pending ++ [{ id := id, isRec := isRec, maxRec := if isRec then e else 0 }] } else r }
+               if r.id == rk then
+                 { r with pending := insertPend r.pending { id := id, isRec := isRec, maxRec := if isRec then e else 0,
+                                                            varBegin := vb, reqOff := ro } }
+               else r }
   | .waitAll sel => stepWaitAll w sel
   | .wait rk s => stepWait w rk s
   | .fillRec rn =>
